@@ -551,6 +551,233 @@ func genVolume(r *hx.Rng) volSpec {
 	return sp
 }
 
+// ---------- histories of uploads of ONE key into one volume ----------
+
+type histOp struct {
+	kind   int    // 0 upload, 1 age, 2 read, 3 expired?
+	reqTtl string // upload: ttl=
+	tsBack uint64 // upload: 0 = no ts=, else ts = now - (tsBack-1) seconds
+	cookie uint32
+	data   int    // upload: index into histContents
+	ageBy  uint64 // age: seconds by which the record's append time and the volume's stamp move back
+	limit  uint64 // expired?: volumeSizeLimit
+	label  string
+}
+
+var histContents = []string{"the same content both times", "some other content, a little longer", "third"}
+
+const histCookie = uint32(0x1234abcd)
+
+// histCase runs one history on key 7 of a fresh volume through the real
+// CreateNeedleFromRequest / Store.WriteVolumeNeedle / Store.ReadVolumeNeedle /
+// Volume.expired; time passes by rewriting the stored record's AppendAtNs and the
+// volume's stamp (hook).  After every step the stored record and the stamp are observed.
+func (e *env) histCase(out *hx.Out, vttl string, ops []histOp, kind string) {
+	vid, v := e.addVolume(vttl)
+	t0 := nowS() - 3
+	v.VerifC09SetLastModifiedTs(t0)
+	const key = uint64(7)
+	var steps, canon []string
+	canon = append(canon, "H:"+vttl)
+	seen := 0
+	for _, op := range ops {
+		var opTerm, res string
+		ttlPair := fmt.Sprintf("(%s, %s)", hx.N(0), hx.N(0))
+		t1 := nowNs()
+		var t2 uint64
+		switch op.kind {
+		case 0:
+			ts := uint64(0)
+			if op.tsBack > 0 {
+				ts = nowS() - (op.tsBack - 1)
+			}
+			n := upload(vid, key, op.cookie, []byte(histContents[op.data]), op.reqTtl, ts)
+			lm := n.LastModified
+			unchanged, err := e.s.WriteVolumeNeedle(vid, n, false)
+			t2 = nowNs()
+			switch {
+			case err == nil:
+				res = "(HAck " + hx.Bool(unchanged) + ")"
+				if unchanged {
+					out.Count("hist:upload-acknowledged-unchanged", 1)
+				} else {
+					out.Count("hist:upload-new-record", 1)
+				}
+			case strings.Contains(err.Error(), "mismatching cookie"):
+				res = "HRefused"
+				out.Count("hist:upload-refused-cookie", 1)
+			default:
+				panic(fmt.Sprintf("history upload: %v", err))
+			}
+			rt, _ := needle.ReadTTL(op.reqTtl)
+			ttlPair = fmt.Sprintf("(%s, %s)", hx.N(uint64(rt.Count)), hx.N(uint64(rt.Unit)))
+			opTerm = fmt.Sprintf("(HUpload %s %s %s %s %s %s)", hx.Str(op.reqTtl), hx.N(ts), hx.N(uint64(op.cookie)), hx.N(uint64(op.data+1)), hx.N(lm), hx.N(n.AppendAtNs))
+		case 1:
+			_, _, _, _, _, app, err := v.VerifC09Stored(key)
+			if err != nil || app <= op.ageBy*ns || v.VerifC09LastModifiedTs() <= op.ageBy {
+				continue
+			}
+			a, st := app-op.ageBy*ns, v.VerifC09LastModifiedTs()-op.ageBy
+			hx.Must(v.VerifC09SetAppendAtNs(key, a))
+			v.VerifC09SetLastModifiedTs(st)
+			t2 = nowNs()
+			opTerm = fmt.Sprintf("(HAge %s %s)", hx.N(a), hx.N(st))
+			res = "HAged"
+		case 2:
+			n := &needle.Needle{Id: types.NeedleId(key), Cookie: types.Cookie(histCookie)}
+			_, err := e.s.ReadVolumeNeedle(vid, n, nil)
+			t2 = nowNs()
+			switch err {
+			case nil:
+				id := 99
+				for i, c := range histContents {
+					if string(n.Data) == c {
+						id = i + 1
+					}
+				}
+				res = fmt.Sprintf("(HData (Some %s))", hx.N(uint64(id)))
+				seen++
+				out.Count("hist:read-found", 1)
+			case storage.ErrorNotFound:
+				res = "(HData None)"
+				out.Count("hist:read-not-found", 1)
+			default:
+				panic(fmt.Sprintf("history read: %v", err))
+			}
+			opTerm = "(HRead 0%N)"
+		default:
+			size, _, _ := v.FileStat()
+			b := v.VerifC09Expired(size, op.limit)
+			t2 = nowNs()
+			res = "(HExp " + hx.Bool(b) + ")"
+			if b {
+				out.Count("hist:volume-expired", 1)
+			} else {
+				out.Count("hist:volume-not-expired", 1)
+			}
+			opTerm = fmt.Sprintf("(HExpired 0%%N %s %s)", hx.N(size), hx.N(op.limit))
+		}
+		rec := "None"
+		if hasTtl, hasLm, cnt, unit, lm, app, err := v.VerifC09Stored(key); err == nil {
+			ck, data, err := v.VerifC09StoredBlob(key)
+			hx.Must(err)
+			id := 99
+			for i, c := range histContents {
+				if string(data) == c {
+					id = i + 1
+				}
+			}
+			rec = fmt.Sprintf("(Some {| ho_has_ttl := %s; ho_has_lm := %s; ho_count := %s; ho_unit := %s; ho_lm := %s; ho_append := %s; ho_cookie := %s; ho_data := %s |})",
+				hx.Bool(hasTtl), hx.Bool(hasLm), hx.N(uint64(cnt)), hx.N(uint64(unit)), hx.N(lm), hx.N(app), hx.N(uint64(ck)), hx.N(uint64(id)))
+		}
+		steps = append(steps, fmt.Sprintf("{| hs_t1 := %s; hs_t2 := %s; hs_op := %s; hs_ttl := %s; hs_res := %s; hs_rec := %s; hs_stamp := %s |}",
+			hx.N(t1), hx.N(t2), opTerm, ttlPair, res, rec, hx.N(v.VerifC09LastModifiedTs())))
+		canon = append(canon, op.label)
+	}
+	e.dropVolume(vid)
+	vt, _ := needle.ReadTTL(vttl)
+	out.Add(fmt.Sprintf("(CVolHist %s %s %s %s %s)", hx.Str(vttl), hx.N(uint64(vt.Count)), hx.N(uint64(vt.Unit)), hx.N(t0), hx.List(steps)),
+		strings.Join(canon, ";"), seen > 0, kind)
+}
+
+func hUp(reqTtl string, data int, label string) histOp {
+	return histOp{kind: 0, reqTtl: reqTtl, cookie: histCookie, data: data, label: label}
+}
+func hAge(by uint64) histOp { return histOp{kind: 1, ageBy: by, label: fmt.Sprintf("age%d", by)} }
+func hRead() histOp         { return histOp{kind: 2, label: "read"} }
+func hExp(limit uint64) histOp {
+	return histOp{kind: 3, limit: limit, label: fmt.Sprintf("expired?lim%d", limit)}
+}
+
+// genHist: upload, then 4..9 steps of: the same bytes again (same ttl= / another ttl=),
+// other bytes, a wrong cookie, time passing (around the effective TTL of the last
+// upload, or a fixed amount), reads and volume-expiry questions; closes with
+// read, expired?, and once more the same bytes + read.
+func genHist(r *hx.Rng) (string, []histOp) {
+	var vttl string
+	switch r.Intn(8) {
+	case 0:
+		vttl = ""
+	case 1:
+		vttl = r.PickStr([]string{"0m", "137y", "255y", "5"})
+	case 2, 3, 4:
+		vttl = r.PickStr([]string{"1m", "2m", "3m", "59m", "1h", "2h", "1d", "1w"})
+	default:
+		vttl = genTtl(r)
+	}
+	pickReq := func() string {
+		switch r.Intn(6) {
+		case 0, 1, 2:
+			return ""
+		case 3:
+			return vttl
+		default:
+			return r.PickStr([]string{"1m", "3m", "1h", "2h", "1d", "0m", "5"})
+		}
+	}
+	cur := hUp(pickReq(), r.Intn(2), "")
+	cur.label = "up:" + cur.reqTtl + fmt.Sprintf("/d%d", cur.data)
+	ops := []histOp{cur}
+	ageAround := func() histOp {
+		eff := cur.reqTtl
+		if eff == "" {
+			eff = vttl
+		}
+		m := realMinutes(eff) * 60
+		margin := uint64(r.PickInt([]int{5, 6, 30, 600}))
+		switch r.Intn(5) {
+		case 0, 1:
+			if m > 0 && m < 1<<33 {
+				return hAge(m + margin) // past the deadline of the last upload
+			}
+		case 2:
+			if m > margin && m < 1<<33 {
+				return hAge(m - margin) // just before it
+			}
+		}
+		return hAge(uint64(r.PickInt([]int{1, 59, 61, 3601, 7200, 86401})))
+	}
+	k := r.Range(4, 9)
+	for i := 0; i < k; i++ {
+		switch r.Intn(10) {
+		case 0, 1:
+			o := cur // byte-identical re-upload, same ttl=
+			o.tsBack = uint64(r.Intn(3))
+			o.label = "re-up-identical"
+			ops = append(ops, o)
+		case 2:
+			o := hUp(pickReq(), cur.data, "")
+			o.label = "re-up-same-bytes-ttl:" + o.reqTtl
+			cur = o
+			ops = append(ops, o)
+		case 3:
+			o := hUp(cur.reqTtl, (cur.data+1+r.Intn(2))%3, "")
+			o.label = fmt.Sprintf("re-up-other-bytes/d%d", o.data)
+			cur = o
+			ops = append(ops, o)
+		case 4:
+			o := cur
+			o.cookie = histCookie + 1
+			o.label = "up-wrong-cookie"
+			ops = append(ops, o)
+		case 5, 6:
+			ops = append(ops, ageAround())
+		case 7, 8:
+			ops = append(ops, hRead())
+		default:
+			ops = append(ops, hExp(uint64(r.PickInt([]int{0, 1 << 30, 1 << 30}))))
+		}
+	}
+	ops = append(ops, hRead(), hExp(1<<30))
+	if r.Bool() {
+		ops = append(ops, ageAround())
+	}
+	last := cur
+	last.label = "re-up-identical"
+	ops = append(ops, hRead(), last, hRead(), hExp(1<<30))
+	return vttl, ops
+}
+
 // ---------- expiry predicate cases ----------
 
 func (e *env) expireCase(out *hx.Out, r *hx.Rng, vttl string, kind string) {
@@ -1100,6 +1327,15 @@ func (e *env) witnesses(out *hx.Out) {
 	e.volumeCase(out, volSpec{vttl: "1h", t0: now/ns - 3600 - 420, limit: 1 << 30, compact: false, needles: []needleSpec{
 		{reqTtl: "", ts: now/ns - 86400, append: now - 60*ns, label: "1h blob appended 1min ago with ts= one day ago into a volume loaded 67min ago"},
 	}}, "witness-expiry-stale-stamp")
+	// histories on one key: the lifetime restarts with every acknowledged upload into a
+	// TTL volume (byte-identical content included) ...
+	e.histCase(out, "1h", []histOp{hUp("", 0, "up"), hRead(), hAge(7200), hRead(), hExp(1 << 30), hUp("", 0, "re-up-identical"), hRead(), hExp(1 << 30),
+		hAge(3590), hRead(), hAge(20), hRead()}, "witness-history-identical-reupload-restarts-lifetime")
+	e.histCase(out, "3m", []histOp{hUp("", 0, "up"), hAge(170), hUp("1h", 0, "re-up-same-bytes-ttl:1h"), hAge(3000), hRead(), hUp("", 1, "re-up-other-bytes"), hRead(), hAge(186), hRead(), hExp(1 << 30)},
+		"witness-history-other-ttl-other-bytes")
+	// ... finding 6: a volume WITHOUT TTL acknowledges the identical re-upload of a ttl= blob without writing
+	e.histCase(out, "", []histOp{hUp("1h", 0, "up:1h"), hRead(), hAge(7200), hRead(), hUp("1h", 0, "re-up-identical"), hRead()},
+		"witness-history-dedup-keeps-first-lifetime")
 	// filer histories: modification does not extend an entry's life; Mtime <> Crtime;
 	// finding 0 seen from the filer
 	e.filerSeqCase(out, nil, 0, "witness-filer-modify-then-expire")
@@ -1109,7 +1345,7 @@ func (e *env) witnesses(out *hx.Out) {
 
 func main() {
 	out := hx.Flags("C09", 240)
-	out.Rule = "kinds: seconds = batches of int32 TtlSec values (ladder boundaries k*unit+d for all six units, dense 0..400, random incl. negatives; thorough: every s<=200000 first) through real SecondsToTTL+ReadTTL+Minutes; ttlstr = TTL strings (all units, counts 0..255 and beyond, malformed) through ReadTTL/Minutes/String/ToUint32/ToBytes/Load*; volume = a volume created with a TTL, 1..5 uploads (ttl= inherit/same/other, ts= absent/at-append/old/future/at-compaction-deadline/>2^40) parsed by CreateNeedleFromRequest, written by WriteVolumeNeedle, aged by rewriting AppendAtNs, read, compacted (index-based Compact2 or, 1 in 3, scanning Compact; then CommitCompact), read again, then CollectHeartbeat with a chosen stamp/size limit/IO error; expire = 24 (stamp,size,limit,delay) points around the expired/expiredLongEnough boundaries on a real volume; filer = 16 entries (TtlSec incl. <=0, Crtime around now-TtlSec) through Filer.FindEntry over leveldb; filer-history = 5..10 operations (+4 closing lookups/listing) on 3 names of one directory of a real Filer over leveldb, from the empty directory: Filer.CreateEntry (o_excl or not; over free, visible and expired names), raw Store.InsertEntry, append-style modify (FindEntry, then CreateEntry of the found entry with Mtime=now and one more chunk), gRPC-style update (FindEntry + Filer.UpdateEntry with a new Crtime the filer must ignore), FindEntry, ListDirectoryEntries, Store.DeleteEntry; entries carry controlled Crtime (T-TtlSec-off, off in +-4..3600 s, or now), Mtime (=Crtime or now), TtlSec in {60,120,3600,86400,7200,90,0,45,61} and chunk ids with declared append times; some histories wait 4 s across a deadline; after every operation the raw store content is observed; a history in which a deadline falls inside a clock bracket is re-run; non-trivial = at least one observation on a non-error path; distinct = canonical generator parameters"
+	out.Rule = "kinds: seconds = batches of int32 TtlSec values (ladder boundaries k*unit+d for all six units, dense 0..400, random incl. negatives; thorough: every s<=200000 first) through real SecondsToTTL+ReadTTL+Minutes; ttlstr = TTL strings (all units, counts 0..255 and beyond, malformed) through ReadTTL/Minutes/String/ToUint32/ToBytes/Load*; volume = a volume created with a TTL, 1..5 uploads (ttl= inherit/same/other, ts= absent/at-append/old/future/at-compaction-deadline/>2^40) parsed by CreateNeedleFromRequest, written by WriteVolumeNeedle, aged by rewriting AppendAtNs, read, compacted (index-based Compact2 or, 1 in 3, scanning Compact; then CommitCompact), read again, then CollectHeartbeat with a chosen stamp/size limit/IO error; volume-history = 9..18 steps on ONE key of a fresh volume (TTL mostly short; '' / 0m / 137y too): upload, then byte-identical re-uploads (same or another ttl=, ts= absent or now), other bytes, wrong cookie, time passing (stored AppendAtNs and volume stamp moved back by effective-TTL+-5..600 s or a fixed amount), Store.ReadVolumeNeedle (content identified), Volume.expired; stored record (flags, TTL, LastModified, AppendAtNs, cookie, content) and stamp observed after every step; expire = 24 (stamp,size,limit,delay) points around the expired/expiredLongEnough boundaries on a real volume; filer = 16 entries (TtlSec incl. <=0, Crtime around now-TtlSec) through Filer.FindEntry over leveldb; filer-history = 5..10 operations (+4 closing lookups/listing) on 3 names of one directory of a real Filer over leveldb, from the empty directory: Filer.CreateEntry (o_excl or not; over free, visible and expired names), raw Store.InsertEntry, append-style modify (FindEntry, then CreateEntry of the found entry with Mtime=now and one more chunk), gRPC-style update (FindEntry + Filer.UpdateEntry with a new Crtime the filer must ignore), FindEntry, ListDirectoryEntries, Store.DeleteEntry; entries carry controlled Crtime (T-TtlSec-off, off in +-4..3600 s, or now), Mtime (=Crtime or now), TtlSec in {60,120,3600,86400,7200,90,0,45,61} and chunk ids with declared append times; some histories wait 4 s across a deadline; after every operation the raw store content is observed; a history in which a deadline falls inside a clock bracket is re-run; non-trivial = at least one observation on a non-error path; distinct = canonical generator parameters"
 	root := hx.NewRng(out.Seed)
 	e := newEnv()
 	shard := int(out.Seed % 1000)
@@ -1162,7 +1398,10 @@ func main() {
 				strs = append(strs, genTtlString(r))
 			}
 			ttlCase(out, strs, "ttlstr")
-		case k <= 5:
+		case k == 5:
+			vttl, ops := genHist(r)
+			e.histCase(out, vttl, ops, "volume-history")
+		case k <= 4:
 			e.volumeCase(out, genVolume(r), "volume")
 		case k == 6:
 			e.expireCase(out, r, genTtl(r), "expire")
